@@ -126,7 +126,7 @@ Definition own_act (frepr : fl -> str) (i : str) (a : act) : Prop :=
   match a with
   | AProject => True
   | AInit sp | ADocSet sp _ _ | ADocRead sp => calc_id frepr sp = i
-  | ALen | ARmWs => False
+  | ALen | ARmWs | APDocSet _ _ | APDocRead => False
   end.
 
 Lemma pc_actor : forall frepr atomic tag f0 w1 w2 wr i acts acc,
